@@ -13,6 +13,7 @@
 (*                                                                         *)
 (* c: n, m, sels (sel value of slave 1..m; <<0>> for the arbiter),         *)
 (*    badsels (sel values that select no slave), minlen, maxlen, bubbles,  *)
+(*    npar (1 or 2 packet tags per master),                                *)
 (*    cap (beats a port may buffer; 0 for the combinational elements).     *)
 (* Environment: every master holds an unaccepted offer; `sel` is part of   *)
 (* the offer of a packet's first beat (steady until that beat is accepted) *)
@@ -35,10 +36,9 @@ VARIABLES ep,     \* per master [par, k]: parity of / accepted beats of the pack
 
 cvars == <<ep, hold, selh, q, pend, dest, own, wc, oprev, obs>>
 
+(* all concatenations of one sequence out of each set of the sequence of sets Ss *)
 RECURSIVE SeqProd(_)
 SeqProd(Ss) == IF Ss = <<>> THEN {<<>>} ELSE {x \o y : x \in Head(Ss), y \in SeqProd(Tail(Ss))}
-RECURSIVE Flatten(_)
-Flatten(ss) == IF ss = <<>> THEN <<>> ELSE Head(ss) \o Flatten(Tail(ss))
 
 LastAllowed(c, k, l) == IF l = 1 THEN k + 1 >= c.minlen /\ k + 1 <= c.maxlen ELSE k + 1 < c.maxlen
 Tag(c, i, par, k) == 1 + ((i - 1) * 2 + par) * c.maxlen + k
@@ -60,9 +60,9 @@ MasterChoices(c, i) ==
 SelChoices(c) ==
   IF selh >= 0 THEN {selh} ELSE {c.sels[j] : j \in 1..c.m} \cup {c.badsels[j] : j \in 1..Len(c.badsels)}
 Inputs(c) ==
-  { Flatten(ms) \o <<sv>> \o rs : ms \in SeqProd([i \in 1..c.n |-> MasterChoices(c, i)]),
+  { ms \o <<sv>> \o rs : ms \in SeqProd([i \in 1..c.n |-> MasterChoices(c, i)]),
                                   sv \in SelChoices(c),
-                                  rs \in SeqProd([j \in 1..c.m |-> {0, 1}]) }
+                                  rs \in SeqProd([j \in 1..c.m |-> {<<0>>, <<1>>}]) }
 
 EnvOk(c, iv) ==
   /\ Len(iv) = 4 * c.n + 1 + c.m
@@ -82,61 +82,60 @@ CInit ==
   /\ q = [i \in 1..MAXN |-> <<>>] /\ pend = [i \in 1..MAXN |-> 0] /\ dest = [i \in 1..MAXN |-> 0]
   /\ own = [j \in 1..MAXN |-> 0] /\ wc = [i \in 1..MAXN |-> 0] /\ oprev = [j \in 1..MAXN |-> <<>>]
   /\ obs = [okdata |-> TRUE, okdest |-> TRUE, okatomic |-> TRUE, okhold |-> TRUE, okbound |-> TRUE, okonce |-> TRUE,
-            okwait |-> TRUE, allrdy |-> FALSE, act |-> [i \in 1..MAXN |-> TRUE], nowait |-> [i \in 1..MAXN |-> TRUE],
+            okwait |-> TRUE, fair |-> FALSE, nowait |-> [i \in 1..MAXN |-> TRUE],
             empty |-> [i \in 1..MAXN |-> TRUE]]
 
 CStep(c, iv, o) ==
+  (* the per-port definitions are functions (not operators) so that TLC evaluates each of them once per step *)
   LET N == 1..c.n
       M == 1..c.m
-      offered(i) == MV(iv, i) = 1
-      mfire(i)   == offered(i) /\ MRdy(o, i) = 1
+      offered  == [i \in N |-> MV(iv, i) = 1]
+      mfire    == [i \in N |-> offered[i] /\ MRdy(o, i) = 1]
       (* destination of the beat master i offers now *)
-      dview(i)   == IF ep[i].k = 0 THEN SelDest(c, Sel(c, iv)) ELSE dest[i]
+      dview    == [i \in N |-> IF ep[i].k = 0 THEN SelDest(c, Sel(c, iv)) ELSE dest[i]]
       (* undelivered beats of master i that are determined now: accepted ones, then the offered one *)
-      vis(i)     == q[i] \o (IF offered(i) /\ pend[i] = 0 THEN << <<MTok(iv, i), dview(i)>> >> ELSE <<>>)
-      shown(j)   == SV(c, o, j) = 1
-      sfire(j)   == shown(j) /\ SRdy(c, iv, j) = 1
+      vis      == [i \in N |-> q[i] \o (IF offered[i] /\ pend[i] = 0 THEN << <<MTok(iv, i), dview[i]>> >> ELSE <<>>)]
+      shown    == [j \in M |-> SV(c, o, j) = 1]
+      sfire    == [j \in M |-> shown[j] /\ SRdy(c, iv, j) = 1]
       (* masters whose oldest undelivered beat is the beat shown on slave j *)
-      cand(j)    == {i \in N : vis(i) # <<>> /\ Head(vis(i))[1] = STok(c, o, j)}
-      src(j)     == IF cand(j) = {} THEN 0 ELSE CHOOSE i \in cand(j) : TRUE
-      consumed(i) == \E j \in M : sfire(j) /\ src(j) = i
-      q1(i)      == IF consumed(i) /\ q[i] # <<>> THEN Tail(q[i]) ELSE q[i]
-      pend1(i)   == IF consumed(i) /\ q[i] = <<>> THEN 1 ELSE pend[i]
-      q2(i)      == IF mfire(i) /\ pend1(i) = 0 /\ dview(i) # 0 THEN Append(q1(i), <<MTok(iv, i), dview(i)>>) ELSE q1(i)
-      pend2(i)   == IF mfire(i) THEN 0 ELSE pend1(i)
-      (* first beat of a packet of master i delivered on slave j in this cycle *)
-      starts(i, j) == sfire(j) /\ src(j) = i /\ own[j] # i
-      waiting(i) == offered(i) /\ ep[i].k = 0 /\ pend[i] = 0 /\ ~consumed(i)
-      wc1(i)     == IF waiting(i) /\ dview(i) # 0
-                    THEN wc[i] + Cardinality({x \in N \ {i} : starts(x, dview(i))})
-                    ELSE 0
+      cand     == [j \in M |-> {i \in N : vis[i] # <<>> /\ Head(vis[i])[1] = STok(c, o, j)}]
+      src      == [j \in M |-> IF ~shown[j] \/ cand[j] = {} THEN 0 ELSE CHOOSE i \in cand[j] : TRUE]
+      consumed == [i \in N |-> \E j \in M : sfire[j] /\ src[j] = i]
+      q1       == [i \in N |-> IF consumed[i] /\ q[i] # <<>> THEN Tail(q[i]) ELSE q[i]]
+      pend1    == [i \in N |-> IF consumed[i] /\ q[i] = <<>> THEN 1 ELSE pend[i]]
+      q2       == [i \in N |-> IF mfire[i] /\ pend1[i] = 0 /\ dview[i] # 0 THEN Append(q1[i], <<MTok(iv, i), dview[i]>>) ELSE q1[i]]
+      (* first beat of a packet of master x delivered on slave j in this cycle *)
+      starts(x, j) == sfire[j] /\ src[j] = x /\ own[j] # x
+      waiting  == [i \in N |-> offered[i] /\ ep[i].k = 0 /\ pend[i] = 0 /\ ~consumed[i]]
+      wc1      == [i \in N |-> IF waiting[i] /\ dview[i] # 0
+                                THEN wc[i] + Cardinality({x \in N \ {i} : starts(x, dview[i])})
+                                ELSE 0]
   IN
-  /\ ep'    = [i \in 1..MAXN |-> IF i \in N /\ mfire(i)
-                                 THEN (IF MTok(iv, i)[2] = 1 THEN [par |-> 1 - ep[i].par, k |-> 0]
+  /\ ep'    = [i \in 1..MAXN |-> IF i \in N /\ mfire[i]
+                                 THEN (IF MTok(iv, i)[2] = 1 THEN [par |-> (ep[i].par + 1) % c.npar, k |-> 0]
                                        ELSE [par |-> ep[i].par, k |-> ep[i].k + 1])
                                  ELSE ep[i]]
-  /\ hold'  = [i \in 1..MAXN |-> IF i \in N /\ offered(i) /\ ~mfire(i) THEN MTok(iv, i) ELSE <<>>]
-  /\ selh'  = IF \E i \in N : offered(i) /\ ~mfire(i) /\ ep[i].k = 0 /\ Len(c.sels) > 1 THEN Sel(c, iv) ELSE -1
-  /\ q'     = [i \in 1..MAXN |-> IF i \in N /\ Len(q2(i)) <= c.cap THEN q2(i) ELSE q[i]]
-  /\ pend'  = [i \in 1..MAXN |-> IF i \in N THEN pend2(i) ELSE 0]
-  /\ dest'  = [i \in 1..MAXN |-> IF i \in N /\ mfire(i) /\ ep[i].k = 0 THEN dview(i) ELSE dest[i]]
-  /\ own'   = [j \in 1..MAXN |-> IF j \in M /\ sfire(j) /\ src(j) # 0
-                                 THEN (IF STok(c, o, j)[2] = 1 THEN 0 ELSE src(j))
+  /\ hold'  = [i \in 1..MAXN |-> IF i \in N /\ offered[i] /\ ~mfire[i] THEN MTok(iv, i) ELSE <<>>]
+  /\ selh'  = IF Len(c.sels) > 1 /\ (\E i \in N : offered[i] /\ ~mfire[i] /\ ep[i].k = 0) THEN Sel(c, iv) ELSE -1
+  /\ q'     = [i \in 1..MAXN |-> IF i \in N /\ Len(q2[i]) <= c.cap THEN q2[i] ELSE q[i]]
+  /\ pend'  = [i \in 1..MAXN |-> IF i \in N /\ ~mfire[i] THEN pend1[i] ELSE 0]
+  /\ dest'  = [i \in 1..MAXN |-> IF i \in N /\ mfire[i] /\ ep[i].k = 0 THEN dview[i] ELSE dest[i]]
+  /\ own'   = [j \in 1..MAXN |-> IF j \in M /\ sfire[j] /\ src[j] # 0
+                                 THEN (IF STok(c, o, j)[2] = 1 THEN 0 ELSE src[j])
                                  ELSE own[j]]
-  /\ wc'    = [i \in 1..MAXN |-> IF i \in N THEN (IF wc1(i) <= c.n THEN wc1(i) ELSE c.n) ELSE 0]
-  /\ oprev' = [j \in 1..MAXN |-> IF j \in M /\ shown(j) /\ ~sfire(j) THEN STok(c, o, j) ELSE <<>>]
-  /\ obs'   = [okdata   |-> \A j \in M : shown(j) => cand(j) # {},
-               okdest   |-> \A j \in M : (shown(j) /\ cand(j) # {}) => Head(vis(src(j)))[2] = j,
-               okatomic |-> \A j \in M : (shown(j) /\ cand(j) # {} /\ own[j] # 0) => src(j) = own[j],
-               okhold   |-> \A j \in M : oprev[j] # <<>> => (shown(j) /\ STok(c, o, j) = oprev[j]),
-               okbound  |-> \A i \in N : Len(q2(i)) <= c.cap,
-               \* a beat accepted from a master is delivered exactly once: it is never shown on two ports at once
-               okonce   |-> \A j1, j2 \in M : (j1 # j2 /\ sfire(j1) /\ sfire(j2)) => (src(j1) = 0 \/ src(j1) # src(j2)),
-               okwait   |-> \A i \in N : wc1(i) <= c.n - 1,
-               allrdy   |-> \A j \in M : SRdy(c, iv, j) = 1,
-               act      |-> [i \in 1..MAXN |-> i \notin N \/ ep[i].k = 0 \/ offered(i)],
-               nowait   |-> [i \in 1..MAXN |-> i \notin N \/ ~offered(i) \/ mfire(i)],
-               empty    |-> [i \in 1..MAXN |-> i \notin N \/ q2(i) = <<>>]]
+  /\ wc'    = [i \in 1..MAXN |-> IF i \in N THEN (IF wc1[i] <= c.n THEN wc1[i] ELSE c.n) ELSE 0]
+  /\ oprev' = [j \in 1..MAXN |-> IF j \in M /\ shown[j] /\ ~sfire[j] THEN STok(c, o, j) ELSE <<>>]
+  /\ obs'   = [okdata   |-> \A j \in M : shown[j] => cand[j] # {},
+               okdest   |-> \A j \in M : src[j] # 0 => Head(vis[src[j]])[2] = j,
+               okatomic |-> \A j \in M : (src[j] # 0 /\ own[j] # 0) => src[j] = own[j],
+               okhold   |-> \A j \in M : oprev[j] # <<>> => (shown[j] /\ STok(c, o, j) = oprev[j]),
+               okbound  |-> \A i \in N : Len(q2[i]) <= c.cap,
+               \* a beat accepted from a master is delivered exactly once: it is never accepted by two ports at once
+               okonce   |-> \A j1, j2 \in M : (j1 # j2 /\ sfire[j1] /\ sfire[j2]) => (src[j1] = 0 \/ src[j1] # src[j2]),
+               okwait   |-> \A i \in N : wc1[i] <= c.n - 1,
+               fair     |-> (\A j \in M : SRdy(c, iv, j) = 1) /\ (\A i \in N : ep[i].k = 0 \/ offered[i]),
+               nowait   |-> [i \in 1..MAXN |-> i \notin N \/ ~offered[i] \/ mfire[i]],
+               empty    |-> [i \in 1..MAXN |-> i \notin N \/ q2[i] = <<>>]]
 
 (* Properties (C16, arbiter / dispatcher) *)
 BeatsInOrder      == obs.okdata    \* a beat shown on a slave port is the oldest undelivered beat of some master (data, last, param intact)
